@@ -69,7 +69,7 @@ package wal
 //@ modifies nothing
 
 //@ func readWriteSegment.Truncate
-//@ property C09 C10
+//@ property C09 C10 C03
 //@ requires rwInv(ms)
 //@ assume separate(ms.txnMappedFile, ms.writingIdx) because "the index buffer (heap or pool) and the mmap region of the segment file are distinct allocations"
 //@ loop 0 invariant fileEndOffset <= i
